@@ -31,13 +31,21 @@ Decorations ==
     \cup [where : {"prelude", "cdef", "both"}, what : {"empty"}]
     \cup [where : {"cdef"}, what : {"syntax-error", "unemittable"}]          \* the reference raises
     \cup [where : {"modname"}, what : {"slash", "dotted"}]
+\* state of the output path before the run (out = "file" only).  Ideal: with "absent", "identical", "longer" (a longer,
+\* different text left by an earlier run with more declarations) and "shorter" the run succeeds and the file holds exactly
+\* EmitC's bytes afterwards; with "directory" and "readonly" the statement is silent about success, but a run that exits 0
+\* must still have left exactly those bytes.
+PreStates == {"absent", "identical", "longer", "shorter", "directory", "readonly"}
+MayFail(pre) == pre \in {"directory", "readonly"}
 Init == cfg \in Configs
 Next == UNCHANGED cfg
 Spec == Init /\ [][Next]_cfg
-ASSUME JsonSerialize(IOEnv.GENSRC_OUT, [configs |-> SetToSeq(Configs), decorations |-> SetToSeq(Decorations)])
+ASSUME JsonSerialize(IOEnv.GENSRC_OUT, [configs |-> SetToSeq(Configs), decorations |-> SetToSeq(Decorations),
+                                         prestates |-> SetToSeq(PreStates)])
 
-\* the clause on one observation o = [status, digest, wrote] given the reference r = [ok, digest]
-Verdict(r, o) == IF r.ok THEN (IF o.status # 0 THEN "status" ELSE IF o.digest # r.digest THEN "bytes" ELSE "ok")
+\* the clause on one observation o = [status, digest, wrote, mayfail] given the reference r = [ok, digest]
+Verdict(r, o) == IF r.ok THEN (IF o.status # 0 THEN (IF o.mayfail THEN "ok" ELSE "status")
+                               ELSE IF o.digest # r.digest THEN "bytes" ELSE "ok")
                  ELSE (IF o.status = 0 THEN "accepted-what-the-reference-rejects"
                        ELSE IF o.wrote THEN "wrote-output-on-failure" ELSE "ok")
 =============================================================================
